@@ -117,12 +117,14 @@ class Token(Leaf):
 
 @nodedataclass
 class Constant(Leaf):
-    literal: str = ''
+    # NOTE no literal is the literal `None`: that is how it is written in
+    #   model source and JSON (Constant())
+    literal: Any = None
 
     def __post_init__(self):
         super().__post_init__()
         # NOTE a literal may be falsy: `0`, `False`, `''`, ...
-        if (self.literal is None or self.literal == '') and self.ast is not None:
+        if self.literal is None and self.ast is not None:
             self.literal = self.ast
 
     def _parse(self, ctx: Ctx) -> Any:
